@@ -3,6 +3,7 @@ addresses by overriding ``socket.getaddrinfo``.  Every lookup made while proxy c
 runs is logged with the *original* host string (the audit hook would only see the
 mapped address); everything else goes to the real resolver."""
 import socket
+import ipaddress
 from typing import Any, Callable, Dict, List, Optional, Tuple
 
 from . import shim
@@ -12,6 +13,7 @@ log: List[Tuple[Any, Any]] = []
 table: Dict[str, str] = {}
 default_ip: Optional[str] = None
 _installed = False
+strict = True
 
 
 def _norm(host: Any) -> Optional[str]:
@@ -35,6 +37,15 @@ def _getaddrinfo(host: Any, port: Any, family: int = 0, type: int = 0, proto: in
         if ip is None and h.endswith('.test') and default_ip is not None:
             ip = default_ip
     if ip is None:
+        if h is not None:
+            try:
+                ipaddress.ip_address(h.strip('[]'))
+                return _real(host, port, family, type, proto, flags)     # numeric: no DNS involved
+            except ValueError:
+                pass
+        if strict and shim.active():
+            # no DNS in the sandbox: answer at once what the real resolver would answer eventually
+            raise socket.gaierror(socket.EAI_NONAME, 'Name or service not known (harness resolver)')
         return _real(host, port, family, type, proto, flags)
     p = int(port) if port is not None else 0
     if ':' in ip:
